@@ -248,6 +248,19 @@ fn short_writes_deliver_exactly_the_output() {
 		}
 	}
 	let mut bad = vec![];
+	// TOML output (a single document) through a writer that accepts short pieces
+	{
+		let doc = format!("{{\"title\": \"{}\", \"n\": 1, \"t\": {{\"k\": [1, 2, 3]}}}}", "x".repeat(300));
+		let mut full = Vec::new();
+		xt::translate_slice(doc.as_bytes(), Some(Format::Json), Format::Toml, &mut full).unwrap();
+		for k in [1usize, 7, 100] {
+			let mut w = Short(vec![], k);
+			let r = xt::translate_slice(doc.as_bytes(), Some(Format::Json), Format::Toml, &mut w);
+			if r.is_err() || w.0 != full {
+				bad.push(format!("TOML: writer accepting {k} byte(s) per call got {} of {} bytes", w.0.len(), full.len()));
+			}
+		}
+	}
 	let input = br#"{"a":[1,{"b":"x"}]} [2] "s""#;
 	for to in [Format::Json, Format::Yaml, Format::Msgpack] {
 		let mut full = Vec::new();
@@ -295,6 +308,17 @@ fn json_edge_inputs_slice_equals_reader() {
 			if ra != rb || (ra && a != b) {
 				bad.push(format!("{input:?} (format named: {}): slice ok={ra} {:?}, reader ok={rb} {:?}", from.is_some(), String::from_utf8_lossy(&a), String::from_utf8_lossy(&b)));
 			}
+		}
+	}
+	// detection sees the same thing from a slice and from a reader, also with leading white space and
+	// at the nesting depth where the JSON and YAML parsers' limits differ
+	for depth in [1usize, 127, 128, 129] {
+		let doc = format!("\n {}{}", "[".repeat(depth), "]".repeat(depth));
+		let (mut a, mut b) = (Vec::new(), Vec::new());
+		let ra = xt::translate_slice(doc.as_bytes(), None, Format::Json, &mut a).map_err(|e| e.to_string());
+		let rb = xt::translate_reader(doc.as_bytes(), None, Format::Json, &mut b).map_err(|e| e.to_string());
+		if ra.is_ok() != rb.is_ok() || (ra.is_ok() && a != b) {
+			bad.push(format!("leading white space, depth {depth}: slice {ra:?} vs reader {rb:?}"));
 		}
 	}
 	for input in ["", " \n "] {
@@ -391,6 +415,25 @@ fn yaml_separators_reader_equals_slice() {
 				if rs.is_ok() != rr.is_ok() || (rs.is_ok() && out != want) {
 					bad.push(format!("{text:?} reads of {chunk}, {how}: slice {rs:?} {:?} vs reader {rr:?} {:?}", String::from_utf8_lossy(&want), String::from_utf8_lossy(&out)));
 				}
+			}
+		}
+	}
+	// one Translator, several auto-detected inputs in different formats: each is detected on its own
+	let tricky = "{\"k\": \"a\u{85}b\", \"z\": -0}\n";
+	let inputs: [(&[u8], Format); 5] = [(&[0x81u8, 0xa1, 0x61, 0x92, 1, 2], Format::Msgpack), (b"{\"a\": [1, 2]}\n", Format::Json), (b"a:\n- 1\n- 2\n", Format::Yaml), (b"1\n2\n3\n", Format::Json), (tricky.as_bytes(), Format::Json)];
+	for first in 0..inputs.len() {
+		for second in 0..inputs.len() {
+			let (mut a, mut b) = (Vec::new(), Vec::new());
+			let mut t = xt::Translator::new(&mut a, Format::Json);
+			let r1 = t.translate_slice(inputs[first].0, None).is_ok();
+			let r2 = t.translate_reader(inputs[second].0, None).is_ok();
+			drop(t);
+			let mut u = xt::Translator::new(&mut b, Format::Json);
+			let s1 = u.translate_slice(inputs[first].0, Some(inputs[first].1)).is_ok();
+			let s2 = u.translate_slice(inputs[second].0, Some(inputs[second].1)).is_ok();
+			drop(u);
+			if (r1, r2) != (s1, s2) || a != b {
+				bad.push(format!("inputs {first} then {second} on one translator: detected {:?} vs named {:?}", String::from_utf8_lossy(&a), String::from_utf8_lossy(&b)));
 			}
 		}
 	}
